@@ -96,3 +96,128 @@ pub fn crc32_stub(data: &[u8]) -> u32 {
     }
     !crc
 }
+
+/// `format!` switch. Off (default): every `format!` yields the empty string — used for log and
+/// error-context text, which no property depends on. On: the real formatting machinery runs;
+/// harnesses switch it on only around path construction with concrete arguments.
+pub static mut REAL_FORMAT: bool = false;
+
+pub fn set_real_format(on: bool) {
+    unsafe { REAL_FORMAT = on }
+}
+
+pub fn format_switch_stub(args: core::fmt::Arguments<'_>) -> String {
+    if unsafe { REAL_FORMAT } {
+        let mut s = String::new();
+        let _ = core::fmt::Write::write_fmt(&mut s, args);
+        s
+    } else {
+        String::new()
+    }
+}
+
+// ------------------------------------------------------------------------------------------------
+// Path producers. The repository builds every path with `format!`; std formatting is intractable
+// for CBMC (see model/paths.rs), so the producers are replaced by builders with the same
+// structure (directory nesting, one distinct name per id / start offset) and a cheap encoding.
+// ------------------------------------------------------------------------------------------------
+use crate::configs::system::SystemConfig;
+use crate::streaming::partitions::partition::ConsumerOffset;
+use iggy::consumer::ConsumerKind;
+
+fn nib(x: u64, k: u32) -> u8 {
+    b'a' + ((x >> (4 * k)) & 0xF) as u8
+}
+fn enc32(x: u32) -> [u8; 8] {
+    let x = x as u64;
+    [nib(x, 7), nib(x, 6), nib(x, 5), nib(x, 4), nib(x, 3), nib(x, 2), nib(x, 1), nib(x, 0)]
+}
+/// ids inside directory names: 4 nibbles (harness ids are small; larger ids are reported)
+fn enc16(x: u32) -> [u8; 4] {
+    assert!(x < 65536, "path stub: id >= 65536 is outside the harness bound");
+    let x = x as u64;
+    [nib(x, 3), nib(x, 2), nib(x, 1), nib(x, 0)]
+}
+fn enc64(x: u64) -> [u8; 16] {
+    [nib(x, 15), nib(x, 14), nib(x, 13), nib(x, 12), nib(x, 11), nib(x, 10), nib(x, 9), nib(x, 8),
+     nib(x, 7), nib(x, 6), nib(x, 5), nib(x, 4), nib(x, 3), nib(x, 2), nib(x, 1), nib(x, 0)]
+}
+/// one allocation, one memcpy per path (String::push per character costs CBMC a growth check each)
+fn string_of(parts: &[&[u8]]) -> String {
+    let mut v: Vec<u8> = Vec::with_capacity(64);
+    let mut i = 0;
+    while i < parts.len() {
+        v.extend_from_slice(parts[i]);
+        i += 1;
+    }
+    unsafe { String::from_utf8_unchecked(v) }
+}
+
+pub fn partition_path_stub(_c: &SystemConfig, stream_id: u32, topic_id: u32, partition_id: u32) -> String {
+    string_of(&[b"s", &enc16(stream_id), b"t", &enc16(topic_id), b"p", &enc16(partition_id)])
+}
+pub fn offsets_path_stub(_c: &SystemConfig, stream_id: u32, topic_id: u32, partition_id: u32) -> String {
+    string_of(&[b"s", &enc16(stream_id), b"t", &enc16(topic_id), b"p", &enc16(partition_id), b"/o"])
+}
+pub fn consumer_offsets_path_stub(_c: &SystemConfig, stream_id: u32, topic_id: u32, partition_id: u32) -> String {
+    string_of(&[b"s", &enc16(stream_id), b"t", &enc16(topic_id), b"p", &enc16(partition_id), b"/o/c"])
+}
+pub fn consumer_group_offsets_path_stub(_c: &SystemConfig, stream_id: u32, topic_id: u32, partition_id: u32) -> String {
+    string_of(&[b"s", &enc16(stream_id), b"t", &enc16(topic_id), b"p", &enc16(partition_id), b"/o/g"])
+}
+pub fn segment_path_stub(_c: &SystemConfig, stream_id: u32, topic_id: u32, partition_id: u32, start_offset: u64) -> String {
+    string_of(&[b"s", &enc16(stream_id), b"t", &enc16(topic_id), b"p", &enc16(partition_id), b"/", &enc64(start_offset)])
+}
+pub fn log_path_stub(path: &str) -> String {
+    string_of(&[path.as_bytes(), b".log"])
+}
+pub fn index_path_stub(path: &str) -> String {
+    string_of(&[path.as_bytes(), b".index"])
+}
+pub fn consumer_offset_new_stub(kind: ConsumerKind, consumer_id: u32, offset: u64, path: &str) -> ConsumerOffset {
+    let s = string_of(&[path.as_bytes(), b"/", &enc32(consumer_id)]);
+    ConsumerOffset { kind, consumer_id, offset, path: std::sync::Arc::new(s) }
+}
+pub fn path_exists_stub(p: &std::path::Path) -> bool {
+    iggy::verif_model::fs::exists_sync(p)
+}
+
+// ------------------------------------------------------------------------------------------------
+// Streaming-harness stubs (`harness_stream!`): messages in these harnesses carry no user headers
+// and at most 4 payload bytes; what the checksum function *is* does not matter to C01..C04/C16/C18
+// (only that the stored value is returned unchanged), so a loop-free stand-in is used.
+// ------------------------------------------------------------------------------------------------
+pub fn cheap_checksum_stub(data: &[u8]) -> u32 {
+    let n = data.len();
+    let mut v = (n as u32).wrapping_mul(0x9E37_79B1);
+    if n > 0 { v ^= data[0] as u32; }
+    if n > 1 { v ^= (data[1] as u32) << 8; }
+    if n > 2 { v ^= (data[2] as u32) << 16; }
+    if n > 3 { v ^= (data[3] as u32) << 24; }
+    v
+}
+
+pub fn headers_to_bytes_absent_stub(
+    _h: &std::collections::HashMap<iggy::models::header::HeaderKey, iggy::models::header::HeaderValue>,
+) -> bytes::Bytes {
+    panic!("harness bound: messages carry no user headers");
+}
+
+pub fn headers_size_absent_stub(
+    h: &Option<std::collections::HashMap<iggy::models::header::HeaderKey, iggy::models::header::HeaderValue>>,
+) -> iggy::utils::byte_size::IggyByteSize {
+    if h.is_some() {
+        panic!("harness bound: messages carry no user headers");
+    }
+    iggy::utils::byte_size::IggyByteSize::from(4u64)
+}
+
+// ------------------------------------------------------------------------------------------------
+// "Cut" stubs: replace a callee that the harness's scenario must not reach by a panic. If the code
+// under test does reach it, the panic is reported as a failed check (nothing is hidden); if not,
+// CBMC is spared the exploration of the callee behind a branch it cannot fold.
+// ------------------------------------------------------------------------------------------------
+
+pub fn cut_materialize(_a: &mut crate::streaming::batching::batch_accumulator::BatchAccumulator) -> crate::streaming::batching::message_batch::RetainedMessageBatch {
+    panic!("cut: the save path (BatchAccumulator::materialize_batch_and_update_state) must not be reached in this harness");
+}
